@@ -41,6 +41,10 @@ budget `fuel`); all imported, not repeated.  In addition:
   * what follows an `if` is duplicated into the branches that fall through (as in translate_keys.py / translate_graph.py).
   * a variable that is assigned None somewhere (`default_branch`) has type Optional[BasicBlock] = option nat: a block
     assigned to it is wrapped in Some; `if x is not None:` narrows it (a match).
+  * the abstract methods of DataflowTransactionContext are the Section parameters univ, null, union, inter, single (as
+    in translate_asserted.py); a function that uses one member of a group of same-typed parameters (univ / null,
+    union / inter) takes the whole group (a dead `let`, tcommon.pin_twins), so that writing one for the other cannot
+    become a mere renaming of a parameter of the discharged function.
 
 Fail-closed: every statement kind, expression kind, attribute name, call name and variable type that is not whitelisted
 below raises TranslateError; the helper functions / properties the glue table stands for are fingerprinted.
@@ -50,7 +54,7 @@ import hashlib
 import os
 import sys
 
-from tcommon import TranslateError, fail, parse, strip_doc, T
+from tcommon import TranslateError, fail, parse, strip_doc, pin_twins, T
 from translate_keys import check_imports, check_no_subclasses, indent, same_text
 from translate_asserted import (
     seq,
@@ -960,7 +964,8 @@ def emit_constraints(outdir):
             body = f"(let {STATE['path']} := path_init in\n{body})"
         w(f"  (* {GEN_REL}: DataflowTransactionContext.{name} (line {fn.lineno}), for one key;")
         w(f"     {note}; fuel is the budget passed to get_asserted_gen *)")
-        w(f"  Definition {GEN_NAME[kind]} (fuel : nat) (block : nat) : {rty} :=\n{indent(body, 4)}.")
+        # a definition that uses one of univ / null (union / inter) takes both: see tcommon.pin_twins
+        w(f"  Definition {GEN_NAME[kind]} (fuel : nat) (block : nat) : {rty} :=\n{indent(pin_twins(body), 4)}.")
         w("")
     w("End ConstraintsGen.")
     os.makedirs(outdir, exist_ok=True)
